@@ -94,6 +94,58 @@ type c18Doc struct {
 	val      *TVal
 }
 
+// dropNullJSConv removes the null members of api.js_conv fields (the precondition of the open native finding F44).
+func dropNullJSConv(v *TVal) {
+	if v == nil {
+		return
+	}
+	switch v.T.Kind {
+	case tSTRUCT:
+		o := v.Fields[:0]
+		for _, fv := range v.Fields {
+			if fv.F != nil && fv.F.JSConv && fv.V == nil {
+				continue
+			}
+			dropNullJSConv(fv.V)
+			o = append(o, fv)
+		}
+		v.Fields = o
+	case tLIST, tSET:
+		for _, e := range v.List {
+			dropNullJSConv(e)
+		}
+	case tMAP:
+		for _, e := range v.Vals {
+			dropNullJSConv(e)
+		}
+	}
+}
+
+// jsconvMembers: the values that are members of api.js_conv fields.
+func jsconvMembers(v *TVal) map[*TVal]bool {
+	m := map[*TVal]bool{}
+	var walk func(v *TVal)
+	walk = func(v *TVal) {
+		if v == nil {
+			return
+		}
+		for _, fv := range v.Fields {
+			if fv.F != nil && fv.F.JSConv && fv.V != nil {
+				m[fv.V] = true
+			}
+			walk(fv.V)
+		}
+		for _, e := range v.List {
+			walk(e)
+		}
+		for _, e := range v.Vals {
+			walk(e)
+		}
+	}
+	walk(v)
+	return m
+}
+
 func runC18(w *W) {
 	t := w.T
 	resetKnobs()
@@ -107,6 +159,9 @@ func runC18(w *W) {
 	// base64 binaries are the precondition of the open native finding F01 (decode past the output capacity): they
 	// are generated in 1/5 of the worlds only, and there every output buffer ends at an unmapped page
 	so.NoBinary = !t.Chance(1, 5, "sch.binary")
+	// api.js_conv under EnableValueMapping: inlined in the native parser, apiJSConv.Write in the portable one. i16 fields
+	// and null members are the preconditions of the open native findings F43 / F44 and stay out
+	so.JSConv, so.JSConvScalars, so.JSConvNoI16 = t.Chance(1, 4, "sch.jsconv"), true, true
 	w.World.GuardGrowth = !so.NoBinary
 	w.worldFacts = map[string]string{"has_base64": fmt.Sprint(!so.NoBinary)}
 	sch := genSchema(t, so)
@@ -115,6 +170,7 @@ func runC18(w *W) {
 	wo.UseDefaultValue = po.UseDefaultValue
 	opts.String2Int64 = t.Chance(1, 5, "opt.string2int")
 	opts.NoBase64Binary = t.Chance(1, 6, "opt.nobase64")
+	opts.EnableValueMapping = so.JSConv && t.Chance(2, 3, "opt.vm")
 	var docs []c18Doc
 	ndocs := 1 + t.Intn(4, "ndocs")
 	for d := 0; d < ndocs; d++ {
@@ -125,7 +181,10 @@ func runC18(w *W) {
 		if opts.NoBase64Binary {
 			textifyBinaries(vg, val)
 		}
-		style := &jsonStyle{t: t, WS: t.Intn(3, "js.ws"), Esc: t.Intn(3, "js.esc"), Num: t.Intn(2, "js.num"), QuoteNums: opts.String2Int64, NoBase64: opts.NoBase64Binary}
+		if opts.EnableValueMapping {
+			dropNullJSConv(val)
+		}
+		style := &jsonStyle{t: t, WS: t.Intn(3, "js.ws"), Esc: t.Intn(3, "js.esc"), Num: t.Intn(2, "js.num"), QuoteNums: opts.String2Int64, NoBase64: opts.NoBase64Binary, ValueMapping: opts.EnableValueMapping}
 		doc := c18Doc{thrift: encodeThrift(nil, val), val: val}
 		if t.Chance(1, 5, "doc.negative") {
 			var cands []*TVal
@@ -133,6 +192,10 @@ func runC18(w *W) {
 			if len(cands) > 0 {
 				v := cands[t.Intn(len(cands), "doc.negative.which")]
 				lit := wrongKindLiteral(w, v.T, opts.String2Int64)
+				if opts.EnableValueMapping && jsconvMembers(val)[v] {
+					// under the value mapping a number in quotes (and, for a string field, a bare number) is the regular spelling
+					lit = []string{"true", "{}", "[]", `{"a":1}`, "[1]"}[t.Intn(5, "doc.negative.jsconv")]
+				}
 				style.Override = map[*TVal]string{v: lit}
 				doc.negative = fmt.Sprintf("a %s value spelled %s", typeName(v.T), lit)
 				w.Sig(fmt.Sprintf("neg:%d>%s", v.T.Kind, lit))
